@@ -14,6 +14,7 @@ import (
 	"github.com/cedar-policy/cedar-go/verif/c06"
 	"github.com/cedar-policy/cedar-go/verif/c07"
 	"github.com/cedar-policy/cedar-go/verif/c08"
+	"github.com/cedar-policy/cedar-go/verif/c09"
 	"github.com/cedar-policy/cedar-go/verif/c20"
 	"github.com/cedar-policy/cedar-go/verif/core"
 )
@@ -27,6 +28,7 @@ var registry = map[string]func() *core.Check{
 	"C06": c06.Check,
 	"C07": c07.Check,
 	"C08": c08.Check,
+	"C09": c09.Check,
 	"C20": c20.Check,
 }
 
